@@ -79,6 +79,18 @@ func resolveTypeText(pkg *types.Package, t string) types.Type {
 		return types.Typ[types.Bool]
 	case "float64":
 		return types.Typ[types.Float64]
+	case "byte", "rune":
+		return types.Universe.Lookup(t).Type()
+	case "uint8":
+		return types.Typ[types.Uint8]
+	case "int32":
+		return types.Typ[types.Int32]
+	case "uint":
+		return types.Typ[types.Uint]
+	case "uint32":
+		return types.Typ[types.Uint32]
+	case "uint64":
+		return types.Typ[types.Uint64]
 	case "Ref":
 		return types.Typ[types.UnsafePointer]
 	case "any":
@@ -757,6 +769,12 @@ func (e *SpecEnv) evalCall(x SCall) SV {
 		return SV{Term: "(atoi " + arg(0).Term + ")", Typ: intT}
 	case "atoiOK":
 		return SV{Term: "(atoi_ok " + arg(0).Term + ")", Typ: boolT}
+	case "zfLen":
+		// zfLen(f): number of bytes of the zip entry f (*zip.File)
+		return SV{Term: "(" + e.G.UF("zf_len", []string{"Ref"}, SInt) + " " + arg(0).Term + ")", Typ: intT}
+	case "zfByte":
+		bt := types.Universe.Lookup("byte").Type()
+		return SV{Term: "(" + e.G.UF("zf_byte", []string{"Ref", SInt}, e.G.TE.SortOf(bt)) + " " + arg(0).Term + " " + arg(1).Term + ")", Typ: bt}
 	case "parseFloat64":
 		return SV{Term: "(pfloat " + arg(0).Term + ")", Typ: types.Typ[types.Float64]}
 	case "parseFloat64OK":
